@@ -492,10 +492,22 @@ def loop_client(root):
 # under the scheduler: VSock pair with the few Channel methods SFTP needs
 
 
-def _dress(sock, name, on_recv_ready=None):
+def _dress(sock, name, on_recv_ready=None, point_after_send=False):
     tr = StubTransport()
     sock.get_transport = lambda: tr
     sock.get_name = lambda: name
+    if point_after_send:
+        # VSock.send yields *before* the bytes leave; a second point after them lets the peer
+        # react before the sender's next statement (e.g. before it registers the request id)
+        plain_send = sock.send
+
+        def send(data):
+            n = plain_send(data)
+            s = S.CUR
+            if s is not None and not s.aborting:
+                s.point("sock.sent")
+            return n
+        sock.send = send
     if on_recv_ready is not None:
         plain = sock.recv_ready
 
@@ -509,7 +521,7 @@ def _dress(sock, name, on_recv_ready=None):
 def sched_pair(on_recv_ready=None):
     """-> (client_sock, server_sock) : VSocks dressed up as channels."""
     a, b = vsocket.pair("c", "s")
-    return _dress(a, "vc", on_recv_ready), _dress(b, "vs")
+    return _dress(a, "vc", on_recv_ready, point_after_send=True), _dress(b, "vs")
 
 
 class FairLock(vthreading.Lock):
